@@ -251,6 +251,14 @@ def main(argv: List[str]) -> int:
                 vals = dict(SLOTS)
                 vals[slot] = vals[other] = '""'
                 add(TEMPLATE.format(**vals), 'awkward identifier')
+    # many-to-many references whose two sides produce the same join column name (self reference, same-named tables in two
+    # schemas, a clash of the concatenations): whatever the SQL means, rendering must not escape with an internal error
+    for t in ["Table nodes {\n  id int\n}\nRef: nodes.id <> nodes.id\n",
+              "Table users {\n  id int\n}\nTable auth.users {\n  id int\n}\nRef: users.id <> auth.users.id\n",
+              "Table a {\n  b_c int\n}\nTable a_b {\n  c int\n}\nRef: a.b_c <> a_b.c\n",
+              "Table t {\n  a int\n  b int\n}\nRef: t.(a, b) <> t.(b, a)\n",
+              "Table t {\n  id int [ref: <> t.id]\n}\n"]:
+        add(t, 'degenerate')
     for t in ['', ' ', '\n', '\n\n\n', '\t', '// only a comment', '/* block */', '/* unterminated', '﻿', '﻿\n', '﻿Table t {\n id int\n}',
               '﻿﻿Table t {\n id int\n}', 'Table t {\n id int' + '(' * 8 + '1' + ')' * 8 + '\n}', 'Table t {\n id int [default: `' + '(' * 50 + ')' * 50 + '`]\n}',
               'Table t {\n id "' + 'x' * 5000 + '"\n}', "Table t {\n id int [note: '" + "\\'" * 2000 + "']\n}", '\x00', 'Table t {\n id int\n}\x00']:
